@@ -79,8 +79,14 @@ func (r *ServiceReconciler) reconcileService(ctx context.Context, req ctrl.Reque
 	}
 
 	if filterByLoadBalancerClass(service, r.LoadBalancerClass) {
-		level.Debug(r.Logger).Log("controller", "ServiceReconciler", "filtered service", req.NamespacedName)
-		return ctrl.Result{}, nil
+		// The class is a type-dependent field: the API server drops it when the type stops
+		// being LoadBalancer. Such a service may have been ours until now, so it goes to the
+		// handler, which releases and cleans up what it holds for a non-LoadBalancer service
+		// (as it does for every such service when no class is configured).
+		if service.Spec.Type == v1.ServiceTypeLoadBalancer {
+			level.Debug(r.Logger).Log("controller", "ServiceReconciler", "filtered service", req.NamespacedName)
+			return ctrl.Result{}, nil
+		}
 	}
 
 	epSlices := []discovery.EndpointSlice{}
